@@ -55,6 +55,15 @@ class ToGFA2:
     if not self.get("ID") and self.is_connected():
       self.set("ID", self._gfa.unused_name())
     if self.get("ID"):
+      try:
+        # (any string can be an ID tag, not every string an edge identifier)
+        gfapy.Field._validate_gfa_field(str(self.get("ID")),
+                                        "optional_identifier_gfa2", "eid")
+      except gfapy.Error:
+        raise gfapy.RuntimeError(
+          "Conversion of edge line from GFA1 to GFA2 failed\n"+
+          "The content of the ID tag is not a valid GFA2 identifier\n"+
+          "Edge line: {}\n".format(str(self)))
       a.append(str(self.get("ID")))
     else:
       a.append("*")
